@@ -38,9 +38,11 @@ var xattrValues = []string{
 	`12345`,
 	`[1,"two",{"three":3}]`,
 	`{"a":"x",   "b":  [ 1 , 2 ] }`, // whitespace that a re-marshal would normalise
+	`{"seq":4,"big":9007199254740993,"dec":0.1000000000000000055511151231257827}`, // numbers a float64 round trip would change
 }
 
 var xattrObjValues = []string{
+	`{"seq":5,"big":12345678901234567890}`,
 	`{"seq":1,"rev":"1-abc"}`,
 	`{"seq":2,"cas":"old","crc":"old","k":{"j":1}}`,
 }
@@ -349,10 +351,16 @@ func (g *Gen) maybeMacro(o *Op) {
 		return
 	}
 	// put a macro on one xattr that carries an object value
+	var present []string
 	for _, name := range XattrPool {
-		if _, ok := o.X[name]; !ok {
-			continue
+		if _, ok := o.X[name]; ok {
+			present = append(present, name)
 		}
+	}
+	if len(present) == 0 {
+		return
+	}
+	for _, name := range present[g.R.Intn(len(present)):] {
 		o.X[name] = rng.Pick(g.R, xattrObjValues)
 		o.Macros = append(o.Macros, Macro{Path: name + ".cas", Type: 0})
 		if g.R.Bool() {
@@ -509,6 +517,8 @@ func Variants() []Op {
 	add(Op{Kind: KWriteUpd, Mode: "body", Body: jb, X: map[string]string{"_sync": `{"seq":1}`}, Macros: []Macro{{Path: "_sync.cas", Type: 0}, {Path: "_sync.crc", Type: 1}}})
 	add(Op{Kind: KWriteWX, CasClass: CasCurrent, Body: jb, X: map[string]string{"_sync": `{"seq":1}`}, Macros: []Macro{{Path: "_sync.cas", Type: 0}, {Path: "_sync.crc", Type: 1}}})
 	add(Op{Kind: KUpdateX, CasClass: CasCurrent, X: map[string]string{"_vv": `{"v":1}`}, Macros: []Macro{{Path: "_vv.cas", Type: 0}, {Path: "_vv.crc", Type: 1}}})
+	add(Op{Kind: KWriteWX, CasClass: CasCurrent, Body: jb, X: map[string]string{"_x": `{"k":1}`, "_x2": `{"k":2}`}, Macros: []Macro{{Path: "_x2.cas", Type: 0}, {Path: "_x2.crc", Type: 1}}})
+	add(Op{Kind: KUpdateX, CasClass: CasCurrent, X: map[string]string{"_x": `{"k":3}`, "_x2": `{"k":4}`}, Macros: []Macro{{Path: "_x2.cas", Type: 0}}})
 	return out
 }
 
